@@ -1088,3 +1088,13 @@ _U73 = " Claiming node slots (Verus, any number of slots, any free list): ValueT
 PROPS["C14"]["claim"] = PROPS["C14"]["claim"] + _U73
 PROPS["C10"]["claim"] = PROPS["C10"]["claim"] + " The slots new nodes are packed into (U60's `budget`) come from ValueTable::claim_entries, proved (Verus, unbounded) to hand out distinct slots, none of them still free."
 PROPS["C10"]["does_not_cover"] = [x.replace("the loop of claim_tree_values that claims the counted slots per tier (HashMap iteration by value, ValueTable::claim_entries)", "the loop of claim_tree_values that hands each tier's count to claim_entries (HashMap iteration by value)") for x in PROPS["C10"]["does_not_cover"]]
+
+# ---------------------------------------------------------------- U74 (Verus: next_free / clear_slot against the mirror invariant, unbounded)
+UNIT_META["free_list"] = {"functions": ["table::ValueTable::next_free", "table::ValueTable::clear_slot"],
+                          "assumes": ["atomics and the RwLock around the free-entry stack are plain cells, the functions take `&mut self` (listed rewrites; bodies are the text of /repo); ValueTable::read_next_free is a contract (the link stored in the slot, below the fill mark: Kani U14)",
+                                      "the tombstone entry built with the 10-byte cursor (write_tombstone, write_next, `buf[0..buf.offset()].to_vec()`) is a contract over an uninterpreted tombstone codec whose link reads back (Kani U5 / U14 on the real bytes); LogWriter::insert_value by contract (unit log_writer)",
+                                      "precondition of clear_slot: the slot freed is not on the free list already and is not slot 0 (caller property)"]}
+PROPS["C14"]["verus_units"] = list(PROPS["C14"].get("verus_units", [])) + ["free_list"]
+PROPS["C14"]["claim"] = PROPS["C14"]["claim"] + " Free list, unbounded (Verus; any list length, with the in-memory stack of multitree tables): next_free reuses the list head and continues the list with the slot it links to, or hands out the fill mark and advances it; clear_slot turns the slot into a tombstone linking to the previous head and makes it the head, writing no other slot; both keep the stack mirroring the on-disk list (top = head, every slot links to the one below) and mark the header dirty."
+PROPS["C06"]["verus_units"] = list(PROPS["C06"].get("verus_units", [])) + ["free_list"]
+PROPS["C06"]["claim"] = PROPS["C06"]["claim"] + " Released storage is reusable (Verus, unbounded): a slot freed by clear_slot is the next one next_free hands out, and the list behind it is intact (unit free_list)."
